@@ -42,7 +42,7 @@ func (hf *hiddenFile) Readdir(count int) ([]fs.FileInfo, error) {
 		}
 
 		for _, info := range infos {
-			hidden, err := isHidden(info.Name(), hf.hiddenPaths)
+			hidden, err := isHidden(filepath.Join(hf.filePath, info.Name()), hf.hiddenPaths)
 			if err != nil {
 				return nil, err
 			}
@@ -72,6 +72,10 @@ func (hf *hiddenFile) Readdir(count int) ([]fs.FileInfo, error) {
 		}
 
 		if errors.Is(err, io.EOF) {
+			if len(availableFiles) > 0 {
+				// io.EOF is only reported together with an empty result
+				return availableFiles, nil
+			}
 			return availableFiles, err
 		}
 	}
@@ -116,7 +120,7 @@ func (hf *hiddenFile) Readdirnames(count int) ([]string, error) {
 		}
 
 		for _, name := range names {
-			hidden, err := isHidden(name, hf.hiddenPaths)
+			hidden, err := isHidden(filepath.Join(hf.filePath, name), hf.hiddenPaths)
 			if err != nil {
 				return nil, err
 			}
@@ -126,6 +130,10 @@ func (hf *hiddenFile) Readdirnames(count int) ([]string, error) {
 		}
 
 		if errors.Is(err, io.EOF) {
+			if len(availableFiles) > 0 {
+				// io.EOF is only reported together with an empty result
+				return availableFiles, nil
+			}
 			return availableFiles, err
 		}
 	}
